@@ -8,6 +8,7 @@ import (
 
 	"verif/mc/hcli"
 	"verif/mc/report"
+	"verif/mc/sched"
 	"verif/mc/schema"
 )
 
@@ -76,6 +77,27 @@ func main() {
 				}
 			}
 			fmt.Println("no violation")
+		case "C17":
+			var rp c17Replay
+			a.LoadReplay(&rp)
+			all := c17Requests(u)
+			var combo []c17Req
+			for _, n := range rp.Reqs {
+				for _, r := range all {
+					if r.Name == n {
+						combo = append(combo, r)
+					}
+				}
+			}
+			h := c17Harness(u, combo, isolatedOutcomes(u, all), nil)
+			f, tr := sched.Replay(h, rp.Schedule)
+			fmt.Println("requests:", rp.Reqs)
+			fmt.Println("schedule:", sched.FormatTrace(tr))
+			if f != nil {
+				fmt.Println("FAIL:", f.Msg)
+				os.Exit(1)
+			}
+			fmt.Println("no violation")
 		case "C16":
 			var rp batchReplay
 			a.LoadReplay(&rp)
@@ -141,6 +163,10 @@ func main() {
 		partC08(a, rep, univName, u)
 	case "C16":
 		partC16(a, rep, univName, u)
+	case "C17":
+		partC17(a, rep, univName, u)
+	case "C17race":
+		partC17Race(a, u)
 	default:
 		report.Internal("unknown part %q", a.Part)
 	}
